@@ -84,7 +84,7 @@ def check(prog, ctx):
     # ---- C06.b branch selection
     sx = Symx(prog, gq)
     outs = sx.run()
-    x, a = sx.symbol('x', 'double'), sx.symbol('a', 'double')
+    x, a = sx.symbol(gq.params[0]['name'], 'double'), sx.symbol(gq.params[1]['name'], 'double')
     spec = []
     import itertools
     rows = list(itertools.product([-1.0, 0.0, 0.5, 1.5, 3.0, 50.0, 100.5, 101.5, 150.0, 300.0], [-1.0, 0.0, 0.5, 2.0, 99.0, 100.0, 100.5, 200.0]))
@@ -383,7 +383,7 @@ def memo(prog, ctx):
     bc = prog.fn(L + 'Binomial_Coefficient')
     sx = Symx(prog, bc)
     outs = sx.run()
-    nn, kk = sx.symbol('n', 'int'), sx.symbol('k', 'int')
+    nn, kk = sx.symbol(bc.params[0]['name'], 'int'), sx.symbol(bc.params[1]['name'], 'int')
     Fc = FN('Factorial')
     GL = FN('GammaLn')
     want_small = sp.floor(sp.Rational(1, 2) + Fc(nn) / Fc(kk) / Fc(nn - kk))
